@@ -67,7 +67,7 @@ Example C23_agree_example : redis_map_run cfP w_agree = mem_map_run cfP w_agree.
 Proof. exact agree_example. Qed.
 
 (* ---------------------------------------------------------------------------------------------
-   STAGE A agreement theorem (core domain), by simulation (Proofs/C23Add.v, C23Read.v, C23Core.v).
+   Agreement theorem (core domain), by simulation (Proofs/C23Add*.v, C23Idem.v, C23Read.v, C23Core.v).
    Redis side: Model/RedisMapBroker.v over the SHALLOW scripts of Model/RedisMapScripts.v
    (map_broker_add.lua, map_broker_stream_read.lua, map_broker_read_unordered.lua); the shallow
    scripts are tied to the interpreted real scripts by evaluation on every explored case
@@ -77,7 +77,7 @@ Proof. exact agree_example. Qed.
      keys_okb     no two channel names collide through the key scheme (finding map-key-collision)
      length ops <= StreamSize   neither side trims (finding map-stream-approx-trim beyond that)
      run_ok       per operation, relative to the memory model's state when it is issued:
-       ai         the run either uses idempotency keys on Publish and contains no Clear (ai = true), or may contain
+       ai         the run either uses idempotency keys on Publish / Remove and contains no Clear (ai = true), or may contain
                   Clear and uses none (ai = false): a result cached before a Clear survives it on Redis only
                   (finding map-clear-idempotency)
        res_okb    (channel, idempotency key) pairs of the run do not collide through the result-key scheme
@@ -91,8 +91,8 @@ Proof. exact agree_example. Qed.
                   key_exists / key_not_found) and an ExpectedPosition with offset < 2^53 and a NON-EMPTY
                   epoch (suppression position_mismatch with the current entry; finding
                   map-cas-empty-epoch otherwise); an unkeyed one carries neither
-       Remove     non-empty key, channel exists; with ai, an IdempotencyKey as for Publish (finding map-remove-missing-channel);
-                  an ExpectedPosition as for Publish (position_mismatch / key_not_found / removal)
+       Remove     non-empty key, channel exists (finding map-remove-missing-channel); with ai, an IdempotencyKey as
+                  for Publish; an ExpectedPosition as for Publish (position_mismatch / key_not_found / removal)
        ReadStream Limit < 2^31; the epoch both sides would create is the same string (epochs are
                   compared up to renaming); existing channel: any since when forward
                   (offset + 1 < 2^64), reverse only with 2 <= since <= top + 1 (findings
